@@ -361,6 +361,7 @@ static DSVectorReal sparseFrom(const Rec& r, size_t& p, int dim)
    }
    return v;
 }
+static bool g_rescaler = false; // known finding copy-rederives-disabled-scaler: see doSolve
 static bool g_reseed = false;   // known finding rng-state-persists: emulate "state reset at the start of each solve"
 static std::string doSolve(SoPlex& s)
 {
@@ -372,6 +373,13 @@ static std::string doSolve(SoPlex& s)
       return "skipped (zero-dimensional LP)";
    }
    if(g_reseed) s.setRandomSeed(s.randomSeed());
+   if(g_rescaler && s.intParam(SoPlex::SCALER) != SoPlex::SCALER_OFF && std::string(s.getScalerName()) == "none")
+   {
+      // known finding copy-rederives-disabled-scaler: the previous solve left the scaler pointer null; what optimize()
+      // should do itself is done here for every object alike
+      s.setIntParam(SoPlex::SCALER, s.intParam(SoPlex::SCALER));
+      ev().count("excluded_known.copy-rederives-disabled-scaler.rebound_before_solve");
+   }
    try
    {
       Status st = s.optimize();
@@ -1433,6 +1441,7 @@ static Verdict runCopy(const Case& c)
 static Verdict run(const Case& c)
 {
    g_reseed = knownKey(K_RNG);
+   g_rescaler = knownKey(K_SCALEROFF);
    const Rec* p = c.find("part");
    Verdict v = (p && p->s(0) == "copy") ? runCopy(c) : runDet(c);
    if(v.ok)
